@@ -665,7 +665,7 @@ func concurrent(run *kit.Run) {
 // request runs on the context the previous one released. What the handler that ran saw (kind, route, parameters)
 // must be what the reference matcher says for THIS request alone.
 func generated(run *kit.Run) {
-	sets := run.Pick(3000, 100000)
+	sets := run.Pick(3000, 400000)
 	r := run.Rand(77)
 	var served int64
 	for s := 0; s < sets; s++ {
